@@ -18,6 +18,12 @@ PREDICATES = [
          kinds=["posc", "nocat", "simple"], over="units"),
     dict(tag="legder", pred="UnitRow.derivedOk {db}", imports=["Barril.Model.LegacyApi"],
          kinds=["posc", "nocat", "simple"], over="units"),
+    # C19: every row's default category is registered with the row's quantity type; every category's default unit
+    # is accepted; symbols and category names contain no quote, backslash or line break
+    dict(tag="defcat", pred="UnitRow.defaultCatOk {db}", imports=["Barril.Model.Ctor"], kinds=["posc"], over="units"),
+    dict(tag="defunit", pred="CatRow.defaultUnitOk {db}", imports=["Barril.Model.Ctor"], kinds=["posc"], over="cats"),
+    dict(tag="symplain", pred="UnitRow.symPlain", imports=["Barril.Model.Ctor"], kinds=["posc"], over="units"),
+    dict(tag="catplain", pred="CatRow.namePlain", imports=["Barril.Model.Ctor"], kinds=["posc"], over="cats"),
     dict(tag="valshape", pred="UnitRow.valShape", imports=["Barril.Model.Valid"], kinds=["posc", "nocat"], over="units"),
 ]
 
